@@ -45,6 +45,9 @@ static void check(ByteSource& in, CaseInfo& ci) {
     for (int i = 0; i < NZ; i++) { Int v = gen_int(in, (size_t)expcap(in.scale, 2, 120)); if (in.chance(60)) { v = gen_special(in); ci.label("boundary_value_operand"); } if (i < 2 && in.scale > 40 && in.chance(20)) { Limbs l = limbs_nz(in, (size_t)in.range(2500, 5000)); v = Int::from_limbs(l.data(), l.size(), in.flag()); ci.label("huge_operand_for_heap_temporaries"); } set_value(P, S, i, v); }
     for (int i = 0; i < NQ; i++) { Int n = gen_int(in, 3), d = gen_int(in, 3, false); if (d.is_zero()) d = Int(1); Int g = ref::gcd(n, d); if (!g.is_zero() && !n.is_zero()) { n = ref::tdiv(n, g); d = ref::tdiv(d, g); } if (n.is_zero()) d = Int(1); for (Pool* p : {&P, &S}) { mpz_from_int(mpq_numref(p->q[i]), n); mpz_from_int(mpq_denref(p->q[i]), d); } }
     for (int i = 0; i < NF; i++) { double d = std::ldexp((double)in.srange(-100000, 100000), (int)in.srange(-20, 20)); mpf_set_d(P.f[i], d); mpf_set_d(S.f[i], d); }
+    if (in.chance(85)) {   // every mpf variable uses all its prec+1 limbs (top bit set, equal exponents): any read beyond the size is then a read beyond the block
+      for (int i = 0; i < NF; i++) { size_t n = (size_t)P.f[i]->_mp_prec + 1; Limbs v = limbs(in, n, S_UNIFORM); v[n - 1] |= 1ull << 63; bool ng = in.flag(); for (Pool* pp : {&P, &S}) { memcpy(pp->f[i]->_mp_d, v.data(), n * 8); pp->f[i]->_mp_size = ng ? -(int)n : (int)n; pp->f[i]->_mp_exp = 1; } }
+      ci.label("mpf_pool_uses_all_limbs"); }
     for (size_t st = 0; st < steps; st++) {
       unsigned act = in.pick({70, 8, 5, 6, 5, 3});
       const char* what = "?";
